@@ -36,9 +36,10 @@ func RoutingContext(r *http.Request) *routingContext {
 }
 
 type Router struct {
-	statePath   string
-	services    *ServiceMap
-	serviceLock sync.RWMutex
+	statePath    string
+	services     *ServiceMap
+	serviceLock  sync.RWMutex
+	snapshotLock sync.Mutex
 }
 
 type ServiceDescription struct {
@@ -323,6 +324,11 @@ func (r *Router) findOrCreateService(name string, options ServiceOptions, target
 }
 
 func (r *Router) saveStateSnapshot() error {
+	// Snapshots are serialised, and each one lists the services only once it
+	// holds the lock, so the snapshot written last is also the most recent one.
+	r.snapshotLock.Lock()
+	defer r.snapshotLock.Unlock()
+
 	services := []*Service{}
 	r.withReadLock(func() error {
 		for _, service := range r.services.All() {
@@ -332,19 +338,31 @@ func (r *Router) saveStateSnapshot() error {
 	})
 
 	verifPoint("snapshot.listed", r)
-	f, err := os.Create(r.statePath)
+
+	// Write the snapshot to a temporary file and rename it into place: the state
+	// file itself is then always a complete snapshot, even if we are killed while
+	// saving.
+	tmpPath := r.statePath + ".tmp"
+	f, err := os.Create(tmpPath)
 	if err != nil {
 		return err
 	}
 	verifPoint("snapshot.created", r)
 
 	err = json.NewEncoder(f).Encode(services)
+	if closeErr := f.Close(); err == nil {
+		err = closeErr
+	}
+	if err == nil {
+		verifPoint("snapshot.written", r)
+		err = os.Rename(tmpPath, r.statePath)
+	}
 	if err != nil {
+		os.Remove(tmpPath)
 		slog.Error("Unable to save state", "error", err, "path", r.statePath)
 		return err
 	}
 
-	verifPoint("snapshot.written", r)
 	slog.Debug("Saved state", "path", r.statePath)
 	return nil
 }
